@@ -7,6 +7,7 @@ Ops
 * `load (<f:bits threshold> <statIntervalMs> <maxQueueingTimeMs>)* [other=<n>]` — the complete list of throttling rules of the
   resource, in check order; also in the middle of a case (a reload: `Throttle.reload` with the code's rule equality).
   `other=<n>` (a rule for another resource, so that an otherwise identical list is a real reload) is ignored here.
+* `loadres (<rule>)*` — the same list through `flow.LoadRulesOfResource(res, …)` (empty list = clear the resource); same rebuild code, same model
 * `clear` / `clearres` — `flow.ClearRules()` / `flow.ClearRulesOfResource(res)`: no rule in force (as `load` with an empty list)
 * `clock <ns>`                                   — virtual time
 * `req <batch>`   `=> (L | S<ns>)* (pass|block)` — one request through all rules (`Throttle.chain`): `L` per checker that reached
@@ -62,6 +63,8 @@ structure St where
   now : Option Int := none
   decls : Array (Int × Nat) := #[]      -- declared workers: (clock, batch)
   taint : Option String := none         -- oracle: a known-finding region entered earlier and not yet left
+  curList : List (Nat × Nat × Nat) := []  -- the rule manager's cache of what was loaded last for the resource (skip test)
+  curOther : String := ""               -- … and for the other resource
 
 /-- the float part of `DoCheck` (same binary64 operations as the Go code) -/
 def classify (T : Float) (statNs b : Nat) : Req :=
@@ -232,29 +235,14 @@ def worst (vs : List String) : String :=
     | some v => v
     | none => if vs.contains "?" then "?" else "ok"
 
-def step (oracle : Bool) (s : St) (ts : List String) (line : String) : St × Option String :=
+def stepRest (oracle : Bool) (s : St) (ts : List String) (line : String) : St × Option String :=
   match ts with
-  | "load" :: rest =>
-    -- an optional last token `other=<n>` (a rule for another resource: makes the reload a real one) is not our business
-    let rest := match rest.getLast? with
-      | some t => if t.startsWith "other=" then rest.dropLast else rest
-      | none => rest
-    match parseRules? rest with
-    | some rules =>
-      if rules.length > 4 || !s.decls.isEmpty then (s, some "bad-op") else
-      let hi := s.orc.foldl (fun a o => max a o.prevHi) 0
-      ({ s with loaded := true, ctls := reload ruleEq s.ctls rules, orc := orcReload s.orc hi rules }, none)
-    | none => (s, some "bad-op")
   | ["clear"] =>        -- flow.ClearRules(): no rule in force; the next load builds fresh checkers
     if !s.decls.isEmpty then (s, some "bad-op") else
-    ({ s with loaded := true, ctls := reload ruleEq s.ctls [], orc := [] }, none)
+    ({ s with loaded := true, ctls := reload ruleEq s.ctls [], orc := [], curList := [], curOther := "" }, none)
   | ["clearres"] =>     -- flow.ClearRulesOfResource(res): the same for this resource
     if !s.decls.isEmpty then (s, some "bad-op") else
-    ({ s with loaded := true, ctls := reload ruleEq s.ctls [], orc := [] }, none)
-  | ["clock", t] =>
-    match t.toNat? with
-    | some t => if s.loaded then ({ s with now := some (t : Int) }, none) else (s, some "bad-op")
-    | none => (s, some "bad-op")
+    ({ s with loaded := true, ctls := reload ruleEq s.ctls [], orc := [], curList := [] }, none)
   | ["req", b] =>
     match b.toNat?, s.now with
     | some b, some now =>
@@ -351,6 +339,33 @@ def step (oracle : Bool) (s : St) (ts : List String) (line : String) : St × Opt
           ({ s' with orc := [{ o with prev := top, prevHi := max top (if adm.isEmpty then o.prevHi else top) }], taint := taint' }, some verdict)
     | _, _, _ => (s, some "bad-op")
   | _ => (s, some "bad-op")
+
+def step (oracle : Bool) (s : St) (ts : List String) (line : String) : St × Option String :=
+  match ts with
+  | ["clock", t] =>
+    match t.toNat? with
+    | some t => if s.loaded then ({ s with now := some (t : Int) }, none) else (s, some "bad-op")
+    | none => (s, some "bad-op")
+  | op :: rest =>
+    if op = "load" || op = "loadres" then
+      -- `load` = flow.LoadRules (whole rule set; `other=<n>` = the rule of another resource), `loadres` = flow.LoadRulesOfResource.
+      -- Both skip a list that is DeepEqual to the cached one, and both rebuild with buildResourceTrafficShapingController
+      -- on the resource's old controllers = `Throttle.reload`.
+      let (rest, other) := match rest.getLast? with
+        | some t => if t.startsWith "other=" then (rest.dropLast, t) else (rest, "")
+        | none => (rest, "")
+      match parseRules? rest with
+      | some rules =>
+        if rules.length > 4 || !s.decls.isEmpty then (s, some "bad-op") else
+        let key := rules.map fun r => ((if r.T == 0.0 then 0 else r.tbits), r.statMs, r.mq)     -- what reflect.DeepEqual compares
+        let skip := if op = "load" then s.curList == key && s.curOther == other else !rules.isEmpty && s.curList == key
+        if skip then ({ s with loaded := true }, none) else
+        let hi := s.orc.foldl (fun a o => max a o.prevHi) 0
+        ({ s with loaded := true, ctls := reload ruleEq s.ctls rules, orc := orcReload s.orc hi rules, curList := key,
+                  curOther := if op = "load" then other else s.curOther }, none)
+      | none => (s, some "bad-op")
+    else stepRest oracle s ts line
+  | [] => (s, some "bad-op")
 
 def run (mode : String) : IO Unit :=
   loop ({} : St) (step (mode == "oracle"))
